@@ -1171,13 +1171,14 @@ where
         }
         let mut safe = self.safe.write().await;
         if let None = safe.active_blob {
-            let blob_opt = safe.blobs.write().await.pop();
-            if let Some(mut blob) = blob_opt {
-                // Active blob accepts writes only with in-memory index
-                if let Err(e) = blob.load_index().await {
-                    safe.blobs.write().await.push(blob).await;
-                    return Err(e);
-                }
+            let blobs = safe.blobs.clone();
+            let mut blobs = blobs.write().await;
+            // Active blob accepts writes only with in-memory index. Index is loaded while the blob is
+            // still in the list: if this future is dropped on await, the blob is not lost
+            if let Some(blob) = blobs.last_id().and_then(|id| blobs.get_child_mut(id)) {
+                blob.data.load_index().await?;
+            }
+            if let Some(blob) = blobs.pop() {
                 safe.active_blob = Some(Box::new(ASRwLock::new(blob)));
                 Ok(())
             } else {
@@ -1215,11 +1216,17 @@ where
         if safe.active_blob.is_none() {
             Err(Error::active_blob_doesnt_exist().into())
         } else {
+            // Sync and lock acquisition are done while the blob is still active: if this future is
+            // dropped on one of these awaits, the blob (and its in-memory index) is not lost
+            if let Some(ablob) = safe.active_blob.as_ref() {
+                ablob.read().await.fsyncdata().await?;
+            }
+            let blobs = safe.blobs.clone();
+            let mut blobs = blobs.write().await;
             // always true
             if let Some(ablob) = safe.active_blob.take() {
                 let ablob = (*ablob).into_inner();
-                ablob.fsyncdata().await?;
-                safe.blobs.write().await.push(ablob).await;
+                blobs.push(ablob).await;
             }
             Ok(())
         }
